@@ -3,8 +3,10 @@
    encoding.  Part 2: the instance -- the analyses do not depend on the iteration order of the
    `defined - used` set except for the ORDER of the UnusedVariables findings. *)
 From Coq Require Import List String Ascii ZArith Bool Arith Lia Permutation.
+From Coq.Strings Require Import Byte.
 From Verif Require Import Base Ops Interp Unparse Severity Analysis AnalysisTable ShowVM Cache
   SeverityProofs AnalysisProofs.
+From Verif Require Codec CodecProofs.
 Import ListNotations.
 Local Open Scope nat_scope.
 Local Open Scope list_scope.
@@ -116,8 +118,9 @@ Lemma queries_order_irrelevant : forall s0, cache_ok s0 -> forall qs1 qs2 q,
   fst (RQ q (RQS qs1 s0)) = fst (RQ q (RQS qs2 s0)).
 Proof.
   intros s0 OK qs1 qs2 q.
-  destruct (queries_idempotent s0 OK qs1 q) as (E1 & _).
-  destruct (queries_idempotent s0 OK qs2 q) as (E2 & _). congruence.
+  destruct (run_queries_inv qs1 s0 OK) as (OK1 & O1). destruct (run_queries_inv qs2 s0 OK) as (OK2 & O2).
+  destruct (run_query_spec q _ OK1) as (F1 & _). destruct (run_query_spec q _ OK2) as (F2 & _).
+  congruence.
 Qed.
 
 (* two objects with the same opcode list (a re-parsed copy, a fresh Pickled(list(p))) answer alike
@@ -322,6 +325,7 @@ Proof.
 Qed.
 
 End Generic.
+Arguments cache_ok {X A P} _ _ _.
 
 (* ========================================================================================== *)
 (* Part 2: the instance -- independence of the hash seed                                      *)
@@ -625,4 +629,68 @@ Proof.
   - destruct (spec_props inst_interpret inst_props l) as [p|e]; [|reflexivity].
     apply inst_safety_equiv. exact HP.
   - apply ans_equiv_refl.
+Qed.
+
+(* ========================================================================================== *)
+(* Part 3: a re-parsed copy has the same opcodes (classes and encodings)                      *)
+(* ========================================================================================== *)
+(* what the interpreter and the analyses can see of a parsed opcode: its class / pickletools row and
+   its bytes (the decoded argument is a function of those bytes); NOT its position in the stream *)
+Definition strip (o : Codec.opc) : Codec.oprow * option (list byte) := (Codec.o_row o, Codec.o_data o).
+
+Lemma strip_shift : forall k ops, map strip (map (CodecProofs.shift_opc k) ops) = map strip ops.
+Proof. intros k ops. rewrite map_map. apply map_ext. intros o. reflexivity. Qed.
+
+(* [b] is exactly one pickle with parse [p]; it is loaded from inside any larger stream; then
+   dumps() of that parse is [b], and loading those bytes again gives the same classes and data *)
+Lemma reparse_same : forall b p, CodecProofs.complete b p -> forall pre rest,
+  exists ops e,
+    Codec.load_stream (pre ++ b ++ rest) (List.length pre) = Codec.LOk (ops, e) /\
+    Codec.dumps ops = Ok b /\
+    Codec.load_stream b 0 = Codec.LOk (p, List.length b) /\
+    map strip p = map strip ops.
+Proof.
+  intros b p H pre rest. unfold CodecProofs.complete in H.
+  exists (map (CodecProofs.shift_opc (List.length pre)) p), (List.length pre + List.length b).
+  split; [apply CodecProofs.load_stream_prefix; exact H|]. split; [|split; [exact H|]].
+  - rewrite CodecProofs.dumps_shift. destruct (CodecProofs.load_stream_exact _ _ _ _ H) as (D & _). rewrite D.
+    unfold Codec.read_at. cbn [skipn]. rewrite Nat.sub_0_r, firstn_all. reflexivity.
+  - symmetry. apply strip_shift.
+Qed.
+
+(* ========================================================================================== *)
+(* Part 4: the statements of C13 / C14 on the instance                                        *)
+(* ========================================================================================== *)
+Lemma hashseed_independent : forall crepr std pi, (forall l, Permutation (pi l) l) ->
+  forall l qs q,
+  let a := fst (inst_run_query crepr std pi q (inst_run_queries crepr std pi qs (fresh l))) in
+  let b := fst (inst_run_query crepr std pi_id q (fresh l)) in
+  ans_equiv a b /\
+  (forall v, q = QAst v -> a = b) /\
+  (forall v, q = QProps v -> a = b) /\
+  (forall v, q = QFresh v -> a = b) /\
+  (forall f1 f2, a = ASafety (Some f1) -> b = ASafety (Some f2) ->
+     verdict f1 = verdict f2 /\ forall f, In f f1 <-> In f f2).
+Proof.
+  intros crepr std pi HP l qs q a b.
+  assert (a = inst_spec_answer crepr std pi q l) as Ea.
+  { unfold a, inst_run_query, inst_run_queries, inst_spec_answer.
+    destruct (queries_idempotent _ _ _ _ _ _ _ _ inst_interpret inst_props (inst_ast_view crepr)
+                (inst_props_view std) (inst_safety crepr std pi) (inst_fresh_view crepr) AErr x_data
+                (fresh l) (fresh_ok _ _ _ _ _ l) qs q) as (E1 & E2 & _).
+    exact (eq_trans E1 E2). }
+  assert (b = inst_spec_answer crepr std pi_id q l) as Eb.
+  { unfold b, inst_run_query, inst_spec_answer.
+    destruct (queries_idempotent _ _ _ _ _ _ _ _ inst_interpret inst_props (inst_ast_view crepr)
+                (inst_props_view std) (inst_safety crepr std pi_id) (inst_fresh_view crepr) AErr x_data
+                (fresh l) (fresh_ok _ _ _ _ _ l) [] q) as (_ & E2 & _).
+    exact E2. }
+  pose proof (inst_spec_equiv crepr std pi HP q l) as EQ. rewrite <- Ea, <- Eb in EQ.
+  split; [exact EQ|]. split; [|split; [|split]].
+  - intros v ->. rewrite Ea, Eb. reflexivity.
+  - intros v ->. rewrite Ea, Eb. reflexivity.
+  - intros v ->. rewrite Ea, Eb. reflexivity.
+  - intros f1 f2 H1 H2. rewrite H1, H2 in EQ. cbn [ans_equiv] in EQ.
+    split; [apply verdict_perm; exact EQ|].
+    intros f. split; [apply Permutation_in; exact EQ|apply Permutation_in, Permutation_sym; exact EQ].
 Qed.
